@@ -445,28 +445,37 @@ C05_WorkConserving ==
 \* "unobs-reclaim" / "unobs-preempt" are built so that the antecedent of the property holds; the
 \* spec re-checks the antecedent from the scenario instead of trusting the label):
 \* interchangeable nodes, interchangeable single-pod 1-GPU jobs, full cluster, one pending job.
-Claimant == CHOOSE p \in Pods : S[p].st = "pending"
-OnePending == Cardinality({p \in Pods : S[p].st = "pending"}) = 1
+\* K >= 1 identical pending single-pod jobs of ONE leaf queue (same priority, same preemptibility)
+Claimants == {p \in Pods : S[p].st = "pending"}
+Claimant == CHOOSE p \in Claimants : TRUE
+KClaim == Cardinality(Claimants)
+IdenticalClaimants ==
+  /\ Claimants # {}
+  /\ \A p \in Claimants : /\ J(JobOf(p)).queue = J(JobOf(Claimant)).queue /\ J(JobOf(p)).prio = J(JobOf(Claimant)).prio
+                            /\ J(JobOf(p)).preempt = J(JobOf(Claimant)).preempt /\ Cardinality(PodsOf(JobOf(p))) = 1
 ClusterFull == \A n \in Nodes : DevicesUsed(n) = N(n).gpus
 Uniform == /\ \A p \in Pods : P(p).gpu = 1 /\ ~IsSharing(p) /\ Unconstrained(p) /\ J(JobOf(p)).min = 1
            /\ \A q \in Queues : Q(q).minRtP = 0 /\ Q(q).minRtR = 0 /\ Q(q).gl = -1
            /\ \A n \in Nodes : UsableNode(n)
 PlacedInCycle(p) == \E i \in Dec : (BindAny(i) \/ Piped(i)) /\ D[i].p = p
-\* the claimant keeps its queue and all ancestors within deserved quota ...
-ClaimantWithinQuota(p) == \A q \in Ancestors(J(JobOf(p)).queue) : Q(q).gq = -1 \/ QGpu(q, 0, FALSE) + 1000 <= Q(q).gq
-\* ... and a preemptible pod runs in a queue (levelled against the claimant's) above its deserved quota
-ReclaimVictimExists(p) ==
-  \E v \in Pods : /\ S[v].st = "running" /\ J(JobOf(v)).preempt = 1 /\ J(JobOf(v)).queue # J(JobOf(p)).queue
-                  /\ LET x == StepDownQ(J(JobOf(v)).queue, J(JobOf(p)).queue) IN Q(x).gq # -1 /\ QGpu(x, 0, FALSE) > Q(x).gq
+\* all claimants together keep their queue and all its ancestors within deserved quota ...
+ClaimantsWithinQuota == \A q \in Ancestors(J(JobOf(Claimant)).queue) : Q(q).gq = -1 \/ QGpu(q, 0, FALSE) + 1000 * KClaim <= Q(q).gq
+\* ... and some queue (levelled against the claimants') runs preemptible pods and stays above its deserved
+\* quota until the last of the K victims is taken
+ReclaimVictimsExist ==
+  \E x \in Queues :
+     /\ x = StepDownQ(x, J(JobOf(Claimant)).queue) /\ x \notin Ancestors(J(JobOf(Claimant)).queue)
+     /\ Q(x).gq # -1 /\ QGpu(x, 0, FALSE) - 1000 * (KClaim - 1) > Q(x).gq
+     /\ Cardinality({v \in Pods : S[v].st = "running" /\ J(JobOf(v)).preempt = 1 /\ InSubtree(v, x)}) >= KClaim
 C05_Reclaim ==
-  (AtCycleEnd /\ ~failed /\ cyc = 1 /\ OnePending /\ Uniform /\ ClusterFull) =>
-     ((ClaimantWithinQuota(Claimant) /\ ReclaimVictimExists(Claimant)) => PlacedInCycle(Claimant))
-PreemptVictimExists(p) ==
-  \E v \in Pods : /\ S[v].st = "running" /\ J(JobOf(v)).preempt = 1 /\ J(JobOf(v)).queue = J(JobOf(p)).queue
-                  /\ J(JobOf(v)).prio < J(JobOf(p)).prio
+  (AtCycleEnd /\ ~failed /\ cyc = 1 /\ IdenticalClaimants /\ Uniform /\ ClusterFull) =>
+     ((ClaimantsWithinQuota /\ ReclaimVictimsExist) => \A p \in Claimants : PlacedInCycle(p))
+PreemptVictimsExist ==
+  Cardinality({v \in Pods : /\ S[v].st = "running" /\ J(JobOf(v)).preempt = 1 /\ J(JobOf(v)).queue = J(JobOf(Claimant)).queue
+                            /\ J(JobOf(v)).prio < J(JobOf(Claimant)).prio}) >= KClaim
 C05_Preempt ==
-  (AtCycleEnd /\ ~failed /\ cyc = 1 /\ OnePending /\ Uniform /\ ClusterFull) =>
-     (PreemptVictimExists(Claimant) => PlacedInCycle(Claimant))
+  (AtCycleEnd /\ ~failed /\ cyc = 1 /\ IdenticalClaimants /\ Uniform /\ ClusterFull) =>
+     (PreemptVictimsExist => \A p \in Claimants : PlacedInCycle(p))
 
 (***************************************************************************)
 (* C04 - hard placement constraints for every bind and nomination.         *)
